@@ -61,7 +61,13 @@ def cfg_list(tier):
                                 if push and balance:
                                     continue   # precondition from the only call site (MQ.send -> metrics_sender, never balanced)
                                 wpull = place[int(who[1])] if who != 'new' else 0
-                                cfgs.append(dict(balance=balance, K=K, B=2, place=place, who=who, wpull=wpull, kind=kind, required=required, push=push, tm=tm))
+                                cfgs.append(dict(balance=balance, K=K, B=2, place=place, who=who, wpull=wpull, kind=kind, required=required, push=push, tm=tm, state='given'))
+    # entry paths of send(): no state (internal counter) and a state whose id has already been passed
+    for st in ('none', 'older'):
+        for balance in (False, True):
+            for kind in ('request', 'close'):
+                for tm in ('dict', 'call'):
+                    cfgs.append(dict(balance=balance, K=1, B=2, place=(0,), who='c0', wpull=0, kind=kind, required=(), push=False, tm=tm, state=st))
     return cfgs
 
 
@@ -109,8 +115,13 @@ def run_send(cfg, dec):
     st_msg, st_bal = z3.Int('st_msg'), z3.Int('st_bal')
     state = StateSend(st_msg, st_bal)
     ex.assume(st_bal >= 0)
-    ex.assume(st_msg >= me.f['min_send_id'])      # the early-return path (id already passed) is covered by SendEntryUnit
     ex.assume(me.f['min_send_id'] >= 0)
+    if cfg.get('state', 'given') == 'given':
+        ex.assume(st_msg >= me.f['min_send_id'])
+    elif cfg['state'] == 'older':
+        ex.assume(st_msg < me.f['min_send_id'])
+    else:
+        state = None
     g = ex.modules[ZMQ]
     g.update(zmq=Obj('zmq', world=None), json_loads=Native(json_loads, 'json_loads'), json_dumps=Native(json_dumps, 'json_dumps'),
              time_ns=Native(lambda ex_: fresh_int('t_ns'), 'time_ns'), ZMQSender=Obj('ZMQSenderCls'), ZMQStateRecv=Native(lambda ex_, m: StateRecv(m), 'ZMQStateRecv'))
@@ -133,9 +144,18 @@ def run_send(cfg, dec):
     try:
         try:
             ex.block(prefix, env)
-        except Ret:
+        except Ret as early:
             ex.outcome = 'early return'
+            ex.cover('entry: id already passed')
+            ex.oblige('C02.sender_monotone: a send whose id has already been passed publishes nothing and changes nothing', z3.And(z3.BoolVal(cfg.get('state') == 'older' and all(not p.f['log'] for p in pubs) and all(me.f['clients'].get(k) is c for k, c in pre.items()) and not calls),
+                             me.f['min_send_id'] == R['min0']))
+            ex.oblige('C02.mq_state: ... and answers with the next id that will be accepted', z3.And(z3.BoolVal(isinstance(early.v, tuple)), early.v.msg_id == R['min0']))
             return ex, None
+        if cfg.get('state') == 'older':
+            ex.oblige('C02.sender_monotone: an already passed id is discarded at entry', False)
+        if state is None:
+            ex.cover('entry: internal counter')
+            ex.oblige('C02.sender_monotone: without a state the internal counter min_send_id is the id used', z3.And(env.v['msg_id'] == R['min0'], z3.BoolVal(env.v['balanced'] is False)))
         R['msg_id'] = env.v['msg_id']
         r1 = ex.call_closure(env.v['poll_recv'], [0], {})
         r2 = ex.call_closure(env.v['poll_recv'], [0], {}) if r1 is not None else None       # drains: no more messages -> falsy
@@ -270,7 +290,7 @@ def send_obligations(ex, R):
 class SendUnit(Unit):
     name = 'ZMQSender.send (poll_recv, send_maybe)'
     targets = tuple(f'{ZMQ}::{q}' for q in ('ZMQSender.send', 'ZMQSender.send.poll_recv', 'ZMQSender.send.send_maybe'))
-    required_covers = ('published',)
+    required_covers = ('published', 'entry: id already passed', 'entry: internal counter')
     bounded = {'tracked clients (K)': '1..2 quick, 1..3 thorough', 'bind addresses (B)': '2'}
 
     def __init__(self, keep=None, name=None):
